@@ -924,6 +924,214 @@ async def dependents_sweep(ctx, report, step):
         shutil.rmtree(d, ignore_errors=True)
 
 
+# ------------------------------------------------------------------------------------------------
+# connect() while the client holds auxiliary resources of the authentication phase (an ssh-agent
+# connection, a suspended password callback): ended at every handshake / auth packet position
+
+class HarnessAgent:
+    """a minimal ssh-agent on a UNIX socket: lists one key, refuses to sign"""
+
+    def __init__(self, path, key):
+        self.path, self.blob, self.connections, self.server = path, key.public_data, 0, None
+
+    async def start(self):
+        self.server = await asyncio.start_unix_server(self._serve, self.path)
+
+    async def _serve(self, reader, writer):
+        from asyncssh.packet import Byte, String, UInt32
+        self.connections += 1
+        try:
+            while True:
+                hdr = await reader.readexactly(4)
+                payload = await reader.readexactly(int.from_bytes(hdr, 'big'))
+                resp = (Byte(12) + UInt32(1) + String(self.blob) + String(b'k')) if payload[0] == 11 else Byte(5)
+                writer.write(UInt32(len(resp)) + resp)
+                await writer.drain()
+        except (asyncio.IncompleteReadError, ConnectionError):
+            pass
+        finally:
+            writer.close()
+
+    async def stop(self):
+        self.server.close()
+        await self.server.wait_closed()
+
+
+def _nfds():
+    import os
+    try:
+        return len(os.listdir('/proc/self/fd'))
+    except OSError:
+        return None
+
+
+AUTH_ENDS = ('natural', 'cut', 'reset', 'abort', 'close')
+
+
+async def auth_once(k, how, agent, slow_password):
+    """returns (problems, finished_before_k, agent_used)"""
+    import asyncssh
+    import gc
+    before = set(asyncio.all_tasks())
+    loop = asyncio.get_running_loop()
+    tun = memwire.MemTunnel(loop)
+    wires, conns, asked = [], [], []
+
+    def on_wire(w):
+        w.auto = False
+        wires.append(w)
+    tun.on_wire = on_wire
+    gate = loop.create_future()
+
+    class Cli(asyncssh.SSHClient):
+        def connection_made(self, conn):
+            conns.append(conn)
+
+        async def password_auth_requested(self):
+            if slow_password:
+                await gate                       # the application is still asking the user
+            asked.append(1)
+            return 'wrong' if len(asked) == 1 else None
+
+    class Srv(asyncssh.SSHServer):
+        def begin_auth(self, username):
+            return True
+
+        def public_key_auth_supported(self):
+            return True
+
+        def validate_public_key(self, username, key):
+            return False
+
+        def password_auth_supported(self):
+            return True
+
+        def validate_password(self, username, password):
+            return False
+    used0 = agent.connections
+    acc = await asyncssh.listen('mem', 22, tunnel=tun, server_factory=Srv, server_host_keys=[sshutil.host_key()])
+    fut = simmod._spawn(asyncssh.connect('mem', 22, tunnel=tun, known_hosts=None, username='u', client_keys=(),
+                                         agent_path=agent.path, config=None, client_factory=Cli))
+    for _ in range(5000):
+        if wires:
+            break
+        await asyncio.sleep(0.001)
+    if not wires:
+        raise RuntimeError('connect() never reached the tunnel')
+    w = wires[0]
+    n = 0
+    idle = 0
+    while n < k and not fut.done() and idle < 10:
+        moved = False
+        for side in 'cs':
+            if n < k and w.pending(side):
+                w.deliver(side, 1)
+                n += 1
+                moved = True
+        await memwire.settle(6)
+        idle = 0 if moved else idle + 1          # (the agent answers over a real socket: give it loop turns)
+    finished = fut.done()
+    if how == 'cut':
+        w.cut_link()
+    elif how == 'reset':
+        w.cut_link(ConnectionResetError('connection reset'))
+    elif how in ('abort', 'close') and conns and not fut.done():
+        (conns[0].abort if how == 'abort' else conns[0].close)()
+    elif how == 'natural' and not fut.done():
+        w.auto = True                            # let the authentication run to its (failing) end
+        w._schedule()
+        if not gate.done():
+            gate.set_result(None)
+    for _ in range(12):
+        await memwire.settle(simmod.SETTLE_TURNS)
+        if fut.done():
+            break
+    probs = []
+    rp_what = f'({how}) after {n} handshake/auth packets, agent connection {"open" if agent.connections > used0 else "not yet opened"}'
+    if not fut.done():
+        fut.cancel()
+        probs.append(('hang', f'connect() with an ssh-agent still pending {12 * simmod.SETTLE_TURNS} loop turns after the '
+                              f'connection ended {rp_what}'))
+    elif not fut.cancelled() and fut.exception() is None:
+        fut.result().abort()
+    if not gate.done():
+        gate.cancel()
+    w.cut_link()
+    acc.close()
+    await memwire.settle(10)
+    lt = leftover_tasks(before)
+    lt = [t for t in lt if 'HarnessAgent._serve' not in repr(t.get_coro())]
+    if lt:
+        probs.append(('tasks', f'connect() ended {rp_what}: {len(lt)} task(s) left: ' + repr(lt[0].get_coro())[:100]))
+        for t in lt:
+            t.cancel()
+        await memwire.settle(2)
+    gc.collect()
+    await memwire.settle(6)
+    return probs, finished, agent.connections > used0
+
+
+async def auth_sweep(ctx, report, step):
+    import tempfile
+    import shutil
+    import os
+    import asyncssh
+    d = tempfile.mkdtemp(prefix='c09ag')
+    agent = HarnessAgent(os.path.join(d, 'agent.sock'), asyncssh.generate_private_key('ssh-ed25519'))
+    await agent.start()
+    used_any = False
+    home = os.environ.get('HOME')
+    os.environ['HOME'] = d                           # no default client keys / config from the real home directory
+    try:
+        await auth_once(1000, 'natural', agent, False)           # warm-up (lazy imports, first fds)
+        fd0 = _nfds()
+        k = 0
+        while k < 200 and report.budget.hangs < MAX_HANGS:
+            done = False
+            for how in AUTH_ENDS:
+                for slow in ((False, True) if how != 'natural' else (False,)):
+                    probs, fin, used = await auth_once(k, how, agent, slow)
+                    used_any = used_any or used
+                    done = done or fin
+                    ctx.count('auth.' + how, group='oracle')
+                    ctx.note_case(('auth', k, how, slow), nontrivial=used)
+                    for p in probs:
+                        report(ctx, p, {'kind': 'auth', 'k': k, 'how': how, 'slow': slow})
+            if done:
+                break
+            k += step
+        fd1 = _nfds()
+        if fd0 is not None and fd1 is not None and fd1 > fd0:
+            report(ctx, ('fds', f'{fd1 - fd0} file descriptor(s) left open after the connect()/auth sweep with an ssh-agent'),
+                   {'kind': 'auth', 'k': -1, 'how': 'natural', 'slow': False})
+        if not used_any:
+            ctx.broke('vacuity:agent', 'the ssh-agent was never contacted during the auth sweep')
+        return k
+    finally:
+        if home is None:
+            os.environ.pop('HOME', None)
+        else:
+            os.environ['HOME'] = home
+        await agent.stop()
+        shutil.rmtree(d, ignore_errors=True)
+
+
+async def late_wait_oracle(ctx, report, n):
+    """create_process(), more than one window of output unread, then wait()/communicate() (harness/streams_e2e.py)"""
+    import random
+    from .. import streams_e2e
+    for i in range(n):
+        if report.budget.hangs >= MAX_HANGS:
+            return
+        seed = ctx.rng.randrange(1 << 30)
+        fail, cfg = await streams_e2e.late_wait_case(random.Random(seed))
+        ctx.count('late_wait', group='oracle')
+        ctx.note_case(('late_wait', json.dumps(cfg, sort_keys=True, default=repr)), nontrivial=True)
+        if fail:
+            report(ctx, ('hang' if 'never returned' in fail else 'late_wait', 'process: ' + fail),
+                   {'kind': 'late_wait', 'seed': seed, 'cfg': cfg})
+
+
 async def sftp_cut_sweep(ctx, report, step):
     import tempfile
     import os
@@ -1071,6 +1279,10 @@ async def main_async(ctx):
         n = await sftp_cut_sweep(ctx, report, 1 if thorough else 2)
         ctx.log(f'SFTP client: link cut at packet positions up to {n}')
     if budget.hangs < MAX_HANGS:
+        n = await auth_sweep(ctx, report, 1 if thorough else 4)
+        ctx.log(f'connect() with an ssh-agent and a password callback: ended five ways at packet positions up to {n}')
+    await late_wait_oracle(ctx, report, 40 if thorough else 10)
+    if budget.hangs < MAX_HANGS:
         n = await dependents_sweep(ctx, report, 1 if thorough else 3)
         ctx.log(f'listeners / process: connection ended five ways at packet positions up to {n}')
     # ---- vacuity guards ----------------------------------------------------------------------------
@@ -1140,6 +1352,29 @@ def replay(rp):
             # re-run the sweep up to the recorded position
             await connect_cut_sweep_replay(rp, out)
             return out
+        if kind == 'late_wait':
+            import random
+            from .. import streams_e2e
+            fail, _ = await streams_e2e.late_wait_case(random.Random(rp['seed']))
+            return [(rp.get('problem', 'hang'), fail)] if fail else []
+        if kind == 'auth' and rp.get('k', -1) >= 0:
+            import tempfile
+            import shutil
+            import os
+            import asyncssh
+            d = tempfile.mkdtemp(prefix='c09ag')
+            agent = HarnessAgent(os.path.join(d, 'agent.sock'), asyncssh.generate_private_key('ssh-ed25519'))
+            await agent.start()
+            home = os.environ.get('HOME')
+            os.environ['HOME'] = d
+            try:
+                probs, _, _ = await auth_once(rp['k'], rp['how'], agent, rp.get('slow', False))
+                return probs
+            finally:
+                if home is not None:
+                    os.environ['HOME'] = home
+                await agent.stop()
+                shutil.rmtree(d, ignore_errors=True)
         if kind == 'dependents':
             import tempfile
             import shutil
